@@ -38,6 +38,9 @@ QUERY_FNS = [
     ("evaluate_ehrenfest_force", 2, 2),
     ("evaluate_ehrenfest_hessian", 1, 3),
     ("generate_transformation", 2, 1),
+    ("real_solid_harmonic", 1, 1),
+    ("factorial2", 1, 1),
+    ("is_integral_screened", 1, 1),
     ("cls_contraction", 3, 1),
     ("cls_array", 3, 1),
 ]
